@@ -623,7 +623,29 @@ def mk_comp(kind, d, elt, gens):
         if it[0] == 'range' and it[1] == C(0) and it[3] == C(1) and elt[0] == 'idx' and elt[2] == ('bv', d, 0, 'num') \
                 and it[2] == _len_of(elt[1]) and not mentions(elt[1], lambda x: x[0] == 'bv' and x[1] == d):
             return ('call', ('b', 'list'), (elt[1],), ())
+        # [f(c[i]) for i in range(len(c))]  with  c = [g(j) for j in range(n)]   is   [f(g(i)) for i in range(n)]
+        # (a comprehension over a comprehension: both are pure value terms here - one whose body may write is run as a loop)
+        if it[0] == 'range' and it[1] == C(0) and it[3] == C(1) and it[2][0] == 'call' and it[2][1] == ('b', 'len') \
+                and len(it[2][2]) == 1 and not it[2][3]:
+            inner = it[2][2][0]
+            bv = ('bv', d, 0, 'num')
+            if inner[0] == 'comp' and inner[1] == 'list' and inner[2] == d and len(inner[4]) == 1 and not inner[4][0][1] \
+                    and inner[4][0][0][0] == 'range' and inner[4][0][0][1] == C(0) and inner[4][0][0][3] == C(1):
+                hit = ('idx', inner, bv)
+                rest = substitute_raw(elt, {hit: ('sym', '$fused')})
+                if rest != elt and not mentions(rest, lambda x: x == inner):
+                    return mk_comp(kind, d, substitute_raw(elt, {hit: inner[3]}), ((inner[4][0][0], ()),))
     return ('comp', kind, d, elt, gens)
+
+
+def substitute_raw(t, sub):
+    """structural replacement without re-normalising (the replaced and the replacing terms have the same value)"""
+    if type(t) is not tuple or not t:
+        return t
+    r = sub.get(t)
+    if r is not None:
+        return r
+    return tuple(substitute_raw(x, sub) if type(x) is tuple else x for x in t)
 
 
 def force_num(t, opts=None):
